@@ -3,6 +3,7 @@ package checks
 import (
 	"fmt"
 	"io"
+	"net"
 	"strconv"
 	"strings"
 	"time"
@@ -29,6 +30,7 @@ func init() {
 			c06Gated(c)
 			c06Flush(c)
 			c06FlushOrder(c)
+			c06HalfClose(c)
 			c06Many(c)
 			runMatrix(c, "C06")
 		},
@@ -507,5 +509,96 @@ func c06FlushOrder(c *ev.Ctx) {
 		}
 		out, dump := p.Close()
 		hang(c, out, dump, "C06:flush-order:"+shape+":Handle-does-not-return", nil)
+	}
+}
+
+// c06HalfClose: the client has sent its requests and shuts down its sending
+// direction (shutdown(SHUT_WR), as a client that has nothing more to ask may)
+// while K requests are still inside the backend. The server reads EOF; every
+// request it had received is still owed its reply, over the still open other
+// direction, in whatever order the backend lets them finish. Real socket pair,
+// one connection object for both directions (as Serve uses it).
+func c06HalfClose(c *ev.Ctx) {
+	const K = 5
+	for oi, order := range [][]int{{0, 1, 2, 3, 4}, {4, 3, 2, 1, 0}, {2, 0, 4, 1, 3}, {1, 3, 0, 2, 4}} {
+		if !c.Mine(oi) {
+			continue
+		}
+		c.Begin(fmt.Sprintf("C06 half-close order %v", order))
+		fs := memfs.New()
+		for k := 0; k < K; k++ {
+			n := fs.MkPath(fmt.Sprintf("/r%d", k), p9.ModeRegular|0644, "")
+			n.Synth, n.SynthSz = true, 1<<16
+		}
+		srv := p9.NewServer(fs)
+		s, vr := newSessOn(srv, 1<<16, v7, sockOpts())
+		uc, isUnix := s.P.C.(*net.UnixConn)
+		ok := vr.OK && isUnix && s.attach(0, "").Errno() == 0
+		for k := 0; k < K && ok; k++ {
+			ok = s.walk(0, uint64(20+k), fmt.Sprintf("r%d", k)).Errno() == 0 && s.open(uint64(20+k), 0).Errno() == 0
+		}
+		if !ok {
+			c.Inconclusive("C06 half-close setup (socket pair unavailable?)")
+			s.P.Close()
+			continue
+		}
+		var gates []*memfs.Gate
+		for k := 0; k < K; k++ {
+			gates = append(gates, fs.Hold(memfs.Match{Method: "ReadAt", Path: fmt.Sprintf("/r%d", k)}, 1))
+		}
+		from := s.P.NReplies()
+		for k := 0; k < K; k++ {
+			s.P.Send(wire.Tread, uint16(700+k), u(uint64(20+k)), u(0), u(64))
+		}
+		parked := true
+		for k := 0; k < K; k++ {
+			if o, _ := gates[k].WaitParked(1); o != quiesce.CondMet {
+				parked = false
+			}
+		}
+		if !parked {
+			c.Inconclusive("C06 half-close: reads did not park")
+			for _, g := range gates {
+				g.Release()
+			}
+			s.P.Close()
+			continue
+		}
+		s.P.Flush()
+		uc.CloseWrite()
+		// let the server see the end of the request stream while all K are parked
+		quiesce.WaitUntil(func() bool { return false }, 3*time.Second)
+		lost := false
+		for _, k := range order {
+			gates[k].Release()
+			rep, got, o, d := s.P.WaitTag(uint16(700+k), from)
+			if !got {
+				det := map[string]any{"release_order": order, "request": k}
+				if o == quiesce.CondMet {
+					c.Violation("C06:half-close:request-received-before-the-client-shut-down-its-sending-side-never-answered", det)
+				} else {
+					hang(c, o, d, "C06:half-close:request-never-answered", det)
+				}
+				lost = true
+				break
+			}
+			if rep.Msg.Type != wire.Rread {
+				c.Violation("C06:half-close:wrong-reply", map[string]any{"reply": rep.Msg.String()})
+			}
+		}
+		for _, g := range gates {
+			g.Release()
+		}
+		if !lost {
+			if n := s.P.NReplies() - from; n != K {
+				c.Violation("C06:half-close:reply-count", map[string]any{"replies": n, "requests": K})
+			}
+		}
+		for _, m := range s.P.Monitor() {
+			c.Violation("C06:half-close:"+firstWord(m), map[string]any{"monitor": m})
+		}
+		out, dump := s.P.Close()
+		hang(c, out, dump, "C06:half-close:Handle-does-not-return", nil)
+		c.Case(fmt.Sprintf("half-close:%v", order), true)
 	}
 }
